@@ -343,7 +343,9 @@ const _: () = {
                     }
 
                     path.pop();
-                }
+
+                    /* here `path.last()` is a directory name: not a target of `omit_extensions` */
+                } else
 
                 if let Some(exts) = self.omit_extensions.as_ref() {
                     for ext in exts.iter() {
